@@ -8,6 +8,7 @@ conditions are mutually exclusive and jointly exhaustive.  Pointers live in this
 import sys
 sys.setrecursionlimit(200000)
 
+RANGES = {}       # var name -> (lo, hi): declared input ranges (vp_range), used to enumerate small values
 VAR_DEFS = {}     # var name -> constant (positions of visible operations, fixed after execution)
 VS_LIMIT = 64
 PAIR_LIMIT = 1024
@@ -29,6 +30,7 @@ def reset():
     _table.clear()
     del _terms[:]
     VAR_DEFS.clear()
+    RANGES.clear()
     _xmemo.clear()
     _pvs_memo.clear()
     _pv_memo.clear()
@@ -255,6 +257,11 @@ def get_pvs(t, w=64):
     vs = get_vs(t)
     if vs is not None:
         r = (vs, False)
+    elif t.op == 'var':
+        rg = RANGES.get(t.args[0])
+        if rg is None and t.w <= 4: rg = (0, (1 << t.w) - 1)
+        if rg is not None and rg[1] - rg[0] < 32:
+            r = ({k: Cmp('eq', t, k, t.w) for k in range(rg[0], rg[1] + 1)}, False)
     elif t.op == 'ite':
         c, a, b = t.args
         pa = get_pvs(a, w); pb = get_pvs(b, w)
